@@ -96,8 +96,19 @@ def main():
     if a.replay:
         return mod.replay(json.load(open(a.replay)))
     chk = vlib.Check(a.pid, a.tier)
+    # wall-clock guard: a check never runs away (quick checks take 10-120 s on the unchanged tree)
+    import signal
+
+    class _Timeout(Exception):
+        pass
+
+    def _on_alarm(signum, frame):
+        raise _Timeout("check exceeded its wall-clock budget")
+    signal.signal(signal.SIGALRM, _on_alarm)
+    signal.alarm(int(os.environ.get("VERIF_CHECK_TIMEOUT", "2400" if a.tier == "quick" else "21600")))
     try:
         mod.run(chk)
+        signal.alarm(0)
     except Exception as ex:  # machinery failure must not look like a pass
         import traceback
         traceback.print_exc()
